@@ -1,8 +1,11 @@
 //go:build verif
 
-// Witness on the real code for the check-then-act window of setLocalHead that
-// the model exposes (Props/C07.v C07_reaches_target_refuted, Props/C03.v
-// C03_stale_pending_example): a gossip verifier call is parked between
+// Stand-alone witness on the real code for the check-then-act window of
+// setLocalHead (Props/C03.v C03_late_add_dropped_example). On trees before
+// /repo 77026ec it logs WITNESS (Syncer.Head() stuck below the store head); on
+// the repaired tree Head() is 20, then 21. The same schedule is part of the C03
+// check as an always-generated corpus case (corpus_test.go).
+// A gossip verifier call is parked between
 // setLocalHead's "already synced?" comparison and pending.Add by a header type
 // whose Height() blocks at that call site; meanwhile Head() learns the next
 // head and the sync loop stores everything; the late pending.Add then leaves a
